@@ -9,16 +9,17 @@ Section SetCodecProofs.
   Hypothesis eqb_eq : forall x y, eqb x y = true <-> x = y.
   Variable doc : Type.
   Variable enc : option (list T) -> doc.
-  Variable dec : doc -> option (list T).
-  (* the library's element codec round-trips a listing; the nil slice decodes to no items *)
-  Hypothesis dec_enc : forall l, dec (enc (Some l)) = Some l.
-  Hypothesis dec_enc_nil : dec (enc None) = Some [].
+  Variable dec : doc -> list T -> option (list T).
+  (* the library's codec round-trips a listing when it decodes into a fresh empty slice; the nil
+     slice decodes to no items *)
+  Hypothesis dec_enc : forall l, dec (enc (Some l)) [] = Some l.
+  Hypothesis dec_enc_nil : dec (enc None) [] = Some [].
 
   Notation mem := (mem T).
   Notation wf := (wf T).
 
   Lemma dec_marshal order :
-    exists l, dec (set_marshal enc order) = Some l /\ forall x, In x l <-> In x order.
+    exists l, dec (set_marshal enc order) [] = Some l /\ forall x, In x l <-> In x order.
   Proof.
     unfold set_marshal. destruct order as [|y r]; simpl.
     - exists []. split; [exact dec_enc_nil | intros x; split; auto].
@@ -61,8 +62,107 @@ Section SetCodecProofs.
   Lemma decode_keeps t d t' :
     wf t -> set_unmarshal eqb dec t d = Some t' -> forall x, mem t x -> mem t' x.
   Proof.
-    intros Ht. unfold set_unmarshal. destruct (dec d) as [l|]; [|discriminate].
+    intros Ht. unfold set_unmarshal. destruct (dec d []) as [l|]; [|discriminate].
     intros E x Hx. injection E as <-.
     destruct (add_spec T eqb eqb_eq t l Ht) as [_ [M _]]. apply M. now left.
   Qed.
 End SetCodecProofs.
+
+(* ---- the sequence layer: framing and element-wise decoding ---- *)
+Section ArrayLayerProofs.
+  Variable T : Type.
+  Variable E : Type.
+  Variable zero : T.
+  Variable enc_elem : T -> E.
+  Variable dec_elem : E -> T -> option T.
+  (* the only library behaviour assumed: an element decodes from its own encoding INTO A FRESH
+     ZERO VALUE to itself *)
+  Hypothesis elem_rt : forall x, dec_elem (enc_elem x) zero = Some x.
+
+  Lemma dec_into_fresh l : dec_into zero dec_elem (map enc_elem l) [] = Some l.
+  Proof.
+    induction l as [|x r IH]; [reflexivity|]. cbn [map dec_into hd tl].
+    rewrite elem_rt, IH. reflexivity.
+  Qed.
+
+  Lemma arr_dec_enc b l : arr_dec zero dec_elem (arr_enc enc_elem b (Some l)) [] = Some l.
+  Proof. apply dec_into_fresh. Qed.
+
+  Lemma arr_dec_enc_nil b : arr_dec zero dec_elem (arr_enc enc_elem b None) [] = Some [].
+  Proof. destruct b; reflexivity. Qed.
+
+  (* the document lists exactly the encodings of the listing, in order; null only for the nil slice *)
+  Lemma arr_enc_shape b o :
+    match arr_enc enc_elem b o with
+    | ANull => o = None /\ b = true
+    | AArr es => es = map enc_elem (match o with Some l => l | None => [] end)
+    end.
+  Proof. destruct o as [l|]; [reflexivity|]. destruct b; cbn; auto. Qed.
+
+  (* a decoder that reuses one variable agrees with the fresh-value decoder whenever decoding an
+     element does not look at the old value — and only then (see reused_refuted below) *)
+  Lemma dec_reused_fresh :
+    (forall e old, dec_elem e old = dec_elem e zero) ->
+    forall es item, dec_reused dec_elem es item = dec_into zero dec_elem es [].
+  Proof.
+    intros Hind es. induction es as [|e r IH]; intros item; [reflexivity|].
+    cbn [dec_reused dec_into hd tl]. rewrite (Hind e item).
+    destruct (dec_elem e zero) as [x|]; [|reflexivity]. rewrite IH. reflexivity.
+  Qed.
+End ArrayLayerProofs.
+
+(* the round trip and the document shape with the sequence layer inside the model *)
+Section ArrayRoundtrip.
+  Variable T : Type.
+  Variable eqb : T -> T -> bool.
+  Hypothesis eqb_eq : forall x y, eqb x y = true <-> x = y.
+  Variable E : Type.
+  Variable zero : T.
+  Variable enc_elem : T -> E.
+  Variable dec_elem : E -> T -> option T.
+  Hypothesis elem_rt : forall x, dec_elem (enc_elem x) zero = Some x.
+
+  Lemma roundtrip_elem (null_for_nil : bool) s t order :
+    SetProofs.wf T s -> SetProofs.wf T t -> Permutation (elems s) order ->
+    exists t', set_unmarshal eqb (arr_dec zero dec_elem) t
+                 (set_marshal (arr_enc enc_elem null_for_nil) order) = Some t'
+               /\ SetProofs.wf T t' /\ forall x, SetProofs.mem T t' x <-> SetProofs.mem T t x \/ SetProofs.mem T s x.
+  Proof.
+    exact (roundtrip T eqb eqb_eq _ (arr_enc enc_elem null_for_nil) (arr_dec zero dec_elem)
+             (arr_dec_enc T E zero enc_elem dec_elem elem_rt null_for_nil)
+             (arr_dec_enc_nil T E zero enc_elem dec_elem null_for_nil) s t order).
+  Qed.
+
+  Lemma document_shape (null_for_nil : bool) (order : list T) :
+    match set_marshal (arr_enc enc_elem null_for_nil) order with
+    | ANull => order = [] /\ null_for_nil = true
+    | AArr es => es = map enc_elem order
+    end.
+  Proof.
+    unfold set_marshal. pose proof (arr_enc_shape T E enc_elem null_for_nil (listing order)) as H.
+    destruct (arr_enc enc_elem null_for_nil (listing order)); destruct order; cbn [listing] in *;
+      try exact H; try (destruct H; split; [reflexivity | assumption]); destruct H; discriminate.
+  Qed.
+End ArrayRoundtrip.
+
+(* a merging element codec: elements are (name, weight); the encoding omits a zero weight
+   (`omitempty`) and decoding an element document that lacks the weight keeps the weight the
+   variable already holds — the documented behaviour of encoding/json and yaml.v3 for structs *)
+From Coq Require Import ZArith.
+Definition mz_enc (x : Z * Z) : Z * option Z :=
+  (fst x, if Z.eqb (snd x) 0 then None else Some (snd x)).
+Definition mz_dec (e : Z * option Z) (old : Z * Z) : option (Z * Z) :=
+  Some (fst e, match snd e with Some w => w | None => snd old end).
+
+Lemma mz_elem_rt : forall x, mz_dec (mz_enc x) (0, 0)%Z = Some x.
+Proof.
+  intros [n w]. unfold mz_dec, mz_enc. cbn [fst snd].
+  destruct (Z.eqb w 0) eqn:E; [apply Z.eqb_eq in E; subst|]; reflexivity.
+Qed.
+
+(* the reused-variable decoder does not round-trip although the element hypothesis holds *)
+Lemma reused_refuted :
+  (forall x, mz_dec (mz_enc x) (0, 0)%Z = Some x) /\
+  arr_dec_reused (0, 0)%Z mz_dec (arr_enc mz_enc true (Some [(1, 5); (2, 0)]%Z)) []
+  = Some [(1, 5); (2, 5)]%Z.
+Proof. split; [exact mz_elem_rt | reflexivity]. Qed.
